@@ -5,7 +5,7 @@ import json, os, sys
 HERE = os.path.dirname(os.path.dirname(os.path.abspath(__file__)))
 sys.path.insert(0, HERE)
 from pqa.engine import Ctx
-from pqa.rules_sift import Skel, SIFT_FNS, SPEC
+from pqa.rules_sift import Skel, SIFT_FNS, SPEC, tree_fn_keys, PRIM_FNS
 src = sys.argv[1] if len(sys.argv) > 1 else "/repo"
 ctx = Ctx(src, "quick")
 out = {}
@@ -17,6 +17,10 @@ for cfg in ("std", "serde", "nostd"):
         for n in names:
             f = v.prog.fn("%s::%s" % (Q, n))
             per_cfg.setdefault("%s::%s" % (Q, n), {})[cfg] = sk.skeleton(f)
+        for k in tree_fn_keys(Q):
+            per_cfg.setdefault(k, {})[cfg] = sk.skeleton(v.prog.fn(k))
+    for k in PRIM_FNS:
+        per_cfg.setdefault("family:" + k, {})[cfg] = sk.family_skeleton(k)
 for k, d in per_cfg.items():
     vals = list(d.values())
     assert all(x == vals[0] for x in vals), "skeleton differs between configurations: " + k
